@@ -231,7 +231,7 @@ func init() {
 		o := o
 		p.Strata = append(p.Strata, mon.Stratum{
 			Name: "random/" + o.Name,
-			N:    qt(15000, 300000),
+			N:    qt(15000, 1500000),
 			Run: func(c *mon.Ctx, i int) {
 				prof := []gen.Profile{gen.PDefault, gen.PTiny, gen.PNulls, gen.PDeep}[i%4]
 				if o.HasEps {
@@ -286,7 +286,7 @@ func init() {
 	})
 	p.Strata = append(p.Strata, mon.Stratum{
 		Name: "hash-injectivity",
-		N:    qt(4000, 100000),
+		N:    qt(4000, 500000),
 		Run: func(c *mon.Ctx, i int) {
 			switch {
 			case i < len(confusable):
